@@ -304,6 +304,15 @@ func VerifC10_Lifecycle() {
 		// state already is final); whether this last answer's children are still
 		// applied is not part of the property
 		rt.Cover("finalized-while-deleting")
+		// ... but once the finalizer is gone the parent "has already lost the
+		// finalizer": nothing may be written to a child after that request
+		if removeIdx >= 0 {
+			for i, r := range log {
+				if i > removeIdx && r.IsWrite() && r.Resource == "configmaps" {
+					rt.Assert(false, "dying-parent/child-written-after-the-finalizer-was-removed")
+				}
+			}
+		}
 	} else {
 		// children are reconciled to the hook's answer
 		rt.Cover("children-reconciled")
